@@ -415,8 +415,9 @@ Fixpoint line_msgs (col : column) (acc : N) (ls : list scanline) : outcome (list
       omap (cons (MLine acc' sh)) (line_msgs col acc' rest))
   end.
 
-(* schedule_and_decode for one column *)
-Definition read_requested (col : column) (rq : requested) (bs : N) : outcome (list (list A)) :=
+(* schedule_and_decode for one column.  [trim] = the request passes through trim_empty_ranges:
+   schedule_and_decode does it, schedule_and_decode_blocking does not. *)
+Definition read_requested (trim : bool) (col : column) (rq : requested) (bs : N) : outcome (list (list A)) :=
   obind (match rq with
          | QRanges rs => ranges_rows rs
          | QIndices idx => Ok (nlen idx)
@@ -424,7 +425,7 @@ Definition read_requested (col : column) (rq : requested) (bs : N) : outcome (li
   if num_rows =? 0 then Ok []                       (* stream::empty() *)
   else
     obind (match rq with
-           | QRanges rs => Ok (trim_empty rs)
+           | QRanges rs => Ok (if trim then trim_empty rs else rs)
            | QIndices idx =>
                if sorted_le idx then indices_to_ranges idx
                else Panic                           (* debug_assert!(indices sorted) in schedule_take *)
@@ -433,9 +434,10 @@ Definition read_requested (col : column) (rq : requested) (bs : N) : outcome (li
     obind (line_msgs col 0 lines) (fun msgs =>
     decode_stream num_rows bs msgs)))).
 
-(* FileReader::read_tasks for one column; [num_rows] is FileDescriptor.length *)
-Definition read_column (num_rows : N) (col : column) (rq : request) (bs : N) : outcome (list (list A)) :=
-  obind (resolve_request num_rows rq) (fun q => read_requested col q bs).
+(* FileReader::read_tasks (blocking = false) / read_stream_projected_blocking (blocking = true) for one
+   column; [num_rows] is FileDescriptor.length *)
+Definition read_column (blocking : bool) (num_rows : N) (col : column) (rq : request) (bs : N) : outcome (list (list A)) :=
+  obind (resolve_request num_rows rq) (fun q => read_requested (negb blocking) col q bs).
 
 End Column.
 
@@ -476,7 +478,7 @@ Definition read_file (num_rows : N) (f : file) (column_indices : list N) (rq : r
       | i :: rest =>
           match nth_error f (N.to_nat i) with
           | None => Panic
-          | Some col => obind (read_column decode num_rows col rq bs) (fun b =>
+          | Some col => obind (read_column decode false num_rows col rq bs) (fun b =>
                         omap (cons b) (go rest))
           end
       end in
@@ -757,7 +759,7 @@ Definition resolve_q (q : bool * list range * list N) : requested :=
 (* scheduling: (page row counts, requested rows) vs (rows per scan line, pages touched by reads) *)
 Definition sched_obs (pages : list N) (rq : requested) : outcome (list N * list N) :=
   obind (match rq with
-         | QRanges rs => Ok (trim_empty rs)
+         | QRanges rs => Ok rs                        (* DecodeBatchScheduler::schedule_ranges called directly *)
          | QIndices idx => if sorted_le idx then indices_to_ranges idx else Panic
          end) (fun rs =>
   omap (fun ls => (map sl_rows ls, map (fun l => N.of_nat (sl_page l)) ls)) (schedule_ranges pages rs)).
@@ -787,14 +789,14 @@ Definition mk_request (tag : N) (rs : list range) (idx : list N) : request :=
   end.
 
 (* whole read path of a column whose row i holds the value i:
-   ((num_rows, page row counts), (request tag, ranges, indices), batch_size)
+   ((num_rows, page row counts), (request tag, ranges, indices), (batch_size, blocking API))
    vs the batches read, each as runs of consecutive values *)
-Definition chk_read (i : (N * list N) * (N * list range * list N) * N) (o : outcome (list (list range))) : bool :=
-  let '((num_rows, pages), (tag, rs, idx), bs) := i in
+Definition chk_read (i : (N * list N) * (N * list range * list N) * (N * bool)) (o : outcome (list (list range))) : bool :=
+  let '((num_rows, pages), (tag, rs, idx), (bs, blocking)) := i in
   let data := N_seq 0 (N.to_nat (nsum pages)) in
   let col := combine pages (split_by data pages) in
   outcome_eqb (list_eqb (list_eqb N.eqb))
-    (read_column (fun x => x) num_rows col (mk_request tag rs idx) bs)
+    (read_column (fun x => x) blocking num_rows col (mk_request tag rs idx) bs)
     (omap (map expand_runs) o).
 
 (* struct scheduling: scan-line row counts per child vs the messages as
